@@ -19,7 +19,7 @@ class Run:
 
 
 def run_portfolio(spec, split=None, solver=None, do_optimize=True, do_extract=True, built=None, fix_time_window=None,
-                  rec=None, prices=None, skip_nodes=None):
+                  rec=None, prices=None, skip_nodes=None, one_call=False):
     """Executes the real calls. Exceptions are caught and reported with the stage they came from."""
     r = Run()
     import eaopack.io as eio
@@ -37,6 +37,18 @@ def run_portfolio(spec, split=None, solver=None, do_optimize=True, do_extract=Tr
                 kw['fix_time_window'] = fix_time_window
             if skip_nodes:
                 kw['skip_nodes'] = skip_nodes
+            if one_call:
+                # the documented shortcut eaopack.io.optimize: same calls, made by EAO itself; problem / result taken from the recorded events
+                n0 = len(rc.events)
+                r.stage = 'one_call'
+                r.out = eio.optimize(b.portfolio, b.timegrid, pr, split_interval_size=split)
+                evs = rc.events[n0:]
+                top = [e for e in evs if e.kind == ('split_setup' if split else 'portfolio_setup') and e.ret is not None]
+                r.op = top[0].ret if top else None
+                opt = [e for e in evs if e.kind == ('split_optimize' if split else 'optimize') and e.exc is None]
+                r.res = opt[-1].ret if opt else None
+                r.stage = 'done'
+                return r
             if split:
                 r.op = b.portfolio.setup_split_optim_problem(pr, b.timegrid, interval_size=split, **kw)
             else:
